@@ -18,6 +18,11 @@ CHECKS = {
          "Because the search sees the function only through sign f(p), TLC's adversary construction covers every root (dyadic or not) up to 2^AMax widths away and every (max_iter, tol) of the grid: Bracket, Accurate, iteration bounds and termination are checked in every state. The code is bound to it in both directions: behaviours -> real runs (points compared one by one in exact dyadic arithmetic; accuracy judged at generous max_iter), real randomised runs -> trace validation.",
          "Functions are continuous and strictly increasing (recorded signs are checked to be monotone). float64. Accuracy is judged only for runs that max_iter cannot have cut short; evaluation-point equality, exact-hit return and bracket discipline are implementation-layer (drift notes, not violations).",
          "DESIGN.md 4.3, 5 (C10)"),
+ "C12": ("model_checking",
+         "TLA+ machine over wrapper trees (Unwrap.tla: build / unwrap / train phases) model-checked with TLC; every tree TLC prints is built from the real wrapper classes and flowjax.wrappers.unwrap compared with TLC's term; per-leaf digest traces of both real training loops validated by TLC against Trace_Unwrap.tla",
+         "TLC enumerates every wrapper tree up to 5 (quick) / 7 (thorough) nodes over the five wrapper kinds, containers and vmapped construction, checks ExactlyOnce / InnerFirst for every order the recursion may take and FrozenBitIdentical under arbitrary optimiser steps; each tree is an implementation test (value of unwrap = TLC's term, idempotence, no wrapper left, parameter count of the ravelled constructor = TLC's trainable set) and, for a third of them, a training run of either loop with the counting optimiser, SGD(lr=1e3) or Adam whose digests TLC validates. Real flows with frozen subsets and method transparency (m vs unwrap(m), bit-identical) complete it.",
+         "exp, softplus, tanh, where, norm are evaluated with NumPy in float64 when interpreting TLC's term (trusted base). Leaves are identified by value (distinct by construction). WeightNormalization constructed under filter_vmap cannot be built in this environment (equinox 0.13.8) and is excluded from the batched cases.",
+         "DESIGN.md 4.4, 5 (C12)"),
  "C15": ("model_checking",
          "TLA+ state machine of fit_to_data (FitToData.tla, Batching.tla) model-checked with TLC; recorded event traces of the real fit_to_data validated against Trace_FitToData.tla by TLC; TLC-enumerated helper cases replayed into get_batches/train_val_split",
          "TLC exhausts the data-flow model (every split, every batch choice, symmetric rows, every batch size) for the clauses of C15 as invariants; every recorded execution of the real loop over a grid of (n, batch_size, val_prop, condition, epochs) is accepted or rejected by TLC against the same clauses at every step. Right level: the property is a statement about every history of a loop with state.",
